@@ -30,14 +30,42 @@ package normalpath
 //
 // The validator: whatever combination of ".", "..", empty, repeated-separator or absolute
 // components the input has, a nil error means the result is a valid relative path.
-//@ func NormalizeAndValidate(path) (r, err)
-//@   property C13
+//@ pure func NormalizeAndValidate(path) (r, err)
+//@   property C13 C14
 //@   reveal validRel, cleanShape
 //@   ensures valid: err == nil ==> validRel(r)
 //@   ensures normalized: err == nil ==> r == Normalize(path)
+//@   ensures complete: validRel(Normalize(path)) ==> err == nil
 //@   ensures err != nil ==> r == ""
 //@   canary ensures err != nil
 //
 //@ func NewError(path, err) (r)
 //@   property C13
 //@   ensures r != nil
+//
+// Join/Dir pass their arguments to path/filepath unchanged on unix; the shape of
+// filepath.Join/Dir on valid relative paths is the trusted (bounded-validated) part.
+//@ pure func Join(paths) (r)
+//@   property C13 C14
+//@   use join-valid
+//@   ensures two: len(paths) == 2 && validRel(paths[0]) && validRel(paths[1]) ==> r == join2(paths[0], paths[1]) && validRel(r)
+//@   ensures one: len(paths) == 1 && validRel(paths[0]) ==> r == paths[0]
+//@   loop 0 invariant len(unnormalized) == len(paths) && (forall j int :: 0 <= j && j < i ==> unnormalized[j] == paths[j])
+//
+//@ pure func Dir(path) (r)
+//@   property C13 C14
+//@   ensures validRel(path) ==> r == dirOf(path)
+//@   ensures parent: validRel(path) && path != "." ==> validRel(r) && ((!contains(path, "/") && r == ".") || (r != "." && hasPrefix(path, r + "/") && !contains(substr(path, len(r) + 1, len(path)), "/") && len(path) > len(r) + 1))
+//
+// Path-wise containment: value equals path or is one of its ancestors.
+//@ pure func EqualsOrContainsPath(value, path, pathType) (r)
+//@   property C13 C14
+//@   use valid-nonempty
+//@   reveal ancOrSelf
+//@   requires pathType == Relative
+//@   requires validRel(value) && validRel(path)
+//@   ensures pathwise: r <==> ancOrSelf(value, path)
+//@   loop 0 invariant validRel(curPath)
+//@   loop 0 invariant curPath == path || hasPrefix(path, curPath + "/") || curPath == "."
+//@   loop 0 invariant ancOrSelf(value, path) && value != "." ==> curPath != "." && (value == curPath || hasPrefix(curPath, value + "/"))
+//@   canary ensures r
